@@ -48,10 +48,18 @@ theorem go_idx_ge (ds : DiffList) : ∀ (cur : Nat) (p : Option (Nat × Str)),
         simp [base] at this
         omega
     | del =>
-      simp only [go] at he
-      have := ih (cur + t.length) (some (cur, t)) (by simp [base]) e he
-      simp [base] at this
-      omega
+      cases p with
+      | none =>
+        simp only [go] at he
+        have := ih (cur + t.length) (some (cur, t)) (by simp [base]) e he
+        simp [base] at this ⊢
+        omega
+      | some q =>
+        obtain ⟨i, d⟩ := q
+        simp only [go] at he
+        simp only [base] at hb ⊢
+        have := ih (cur + t.length) (some (i, d ++ t)) (by simp [base]; omega) e he
+        simpa [base] using this
     | ins =>
       cases p with
       | some q =>
@@ -107,21 +115,20 @@ theorem head_ge_of_all {es : List Edit} {n : Nat} (h : ∀ e ∈ es, n ≤ e.idx
   | cons x xs => simp at he; subst he; exact h _ (by simp)
 
 theorem applyFrom_go (ds : DiffList) : ∀ (cur : Nat) (p : Option (Nat × Str)),
-    okFrom p.isSome ds = true →
     (∀ i d, p = some (i, d) → cur = i + d.length) →
     applyFrom (base cur p) (pend p ++ src ds) (go ds cur p) = dst ds := by
   induction ds with
   | nil =>
-    intro cur p _ _
+    intro cur p _
     cases p with
     | none => simp [go, flush, applyFrom, pend, src, dst]
     | some q => obtain ⟨i, d⟩ := q; simp [go, flush, applyFrom, pend, src, dst, base]
   | cons x ds ih =>
-    intro cur p hok hp
+    intro cur p hp
     obtain ⟨o, t⟩ := x
     cases o with
     | eq =>
-      have hrec := ih (cur + t.length) none (by simpa [okFrom] using hok) (by intro i d h; cases h)
+      have hrec := ih (cur + t.length) none (by intro i d h; cases h)
       simp only [base, pend, List.nil_append] at hrec
       have hge : ∀ e, (go ds (cur + t.length) none).head? = some e → cur + t.length ≤ e.idx :=
         head_ge_of_all (fun e he => by
@@ -141,13 +148,17 @@ theorem applyFrom_go (ds : DiffList) : ∀ (cur : Nat) (p : Option (Nat × Str))
         exact key
     | del =>
       cases p with
-      | some q => obtain ⟨i, d⟩ := q; simp [okFrom] at hok
+      | some q =>
+        obtain ⟨i, d⟩ := q
+        have hc := hp i d rfl
+        have hrec := ih (cur + t.length) (some (i, d ++ t))
+          (by intro i' d' h; cases h; simp [hc]; omega)
+        simpa [go, base, pend, src, dst, List.append_assoc] using hrec
       | none =>
-        have hrec := ih (cur + t.length) (some (cur, t)) (by simpa [okFrom] using hok)
-          (by intro i d h; cases h; rfl)
+        have hrec := ih (cur + t.length) (some (cur, t)) (by intro i d h; cases h; rfl)
         simpa [go, base, pend, src, dst] using hrec
     | ins =>
-      have hrec := ih cur none (by simpa [okFrom] using hok) (by intro i d h; cases h)
+      have hrec := ih cur none (by intro i d h; cases h)
       simp only [base, pend, List.nil_append] at hrec
       cases p with
       | some q =>
@@ -233,15 +244,16 @@ theorem go_sorted (ds : DiffList) : ∀ (cur : Nat) (p : Option (Nat × Str)),
         simp only [go, flush, base, List.cons_append, List.nil_append, SortedFrom]
         exact ⟨Nat.le_refl _, sortedFrom_mono hrec (by omega)⟩
     | del =>
-      have hrec := ih (cur + t.length) (some (cur, t)) (by intro i d h; cases h; rfl)
-      simp only [base] at hrec
-      simp only [go]
       cases p with
-      | none => simpa [base] using hrec
+      | none =>
+        have hrec := ih (cur + t.length) (some (cur, t)) (by intro i d h; cases h; rfl)
+        simpa [go, base] using hrec
       | some q =>
         obtain ⟨i, d⟩ := q
         have hc := hp i d rfl
-        simp only [base]; exact sortedFrom_mono hrec (by omega)
+        have hrec := ih (cur + t.length) (some (i, d ++ t))
+          (by intro i' d' h; cases h; simp [hc]; omega)
+        simpa [go, base] using hrec
     | ins =>
       have hrec := ih cur none (by intro i d h; cases h)
       simp only [base] at hrec
@@ -326,16 +338,17 @@ theorem go_targetsAt (full : Str) (ds : DiffList) : ∀ (cur : Nat) (p : Option 
           have h1 := drop_of_drop_eq_append hf
           rw [hc]; exact drop_of_drop_eq_append h1
     | del =>
-      simp only [go] at he
-      refine ih (cur + t.length) (some (cur, t)) (by intro i d h; cases h; rfl) ?_ e he
-      simp only [base, pend]
       cases p with
-      | none => simpa [base, pend, src] using hf
+      | none =>
+        simp only [go] at he
+        refine ih (cur + t.length) (some (cur, t)) (by intro i d h; cases h; rfl) ?_ e he
+        simpa [base, pend, src] using hf
       | some q =>
         obtain ⟨i, d⟩ := q
         have hc := hp i d rfl
-        simp only [base, pend, src] at hf
-        rw [hc]; exact drop_of_drop_eq_append hf
+        simp only [go] at he
+        refine ih (cur + t.length) (some (i, d ++ t)) (by intro i' d' h; cases h; simp [hc]; omega) ?_ e he
+        simpa [base, pend, src, List.append_assoc] using hf
     | ins =>
       cases p with
       | some q =>
@@ -428,11 +441,23 @@ theorem go_aligned (tds : TokDiffList) : ∀ (cur : Nat) (p : Option (Nat × Str
           (by intro i d h; cases h) e he
         simpa [srcTok, dstTok, List.append_assoc] using this
     | del =>
-      simp only [ofTok, List.map_cons, go] at he
-      have := ih (cur + (flat ts).length) (some (cur, flat ts)) (sp ++ ptoks) dp ts
-        (by intro h; cases h)
-        (by intro i d h; cases h; exact ⟨curEq, rfl, rfl⟩) e he
-      simpa [srcTok, dstTok, List.append_assoc] using this
+      cases p with
+      | none =>
+        obtain ⟨_, h2⟩ := hn rfl
+        subst h2
+        simp only [ofTok, List.map_cons, go] at he
+        have := ih (cur + (flat ts).length) (some (cur, flat ts)) sp dp ts
+          (by intro h; cases h)
+          (by intro i d h; cases h; exact ⟨by simpa using curEq, rfl, rfl⟩) e he
+        simpa [srcTok, dstTok, List.append_assoc] using this
+      | some q =>
+        obtain ⟨i, d⟩ := q
+        obtain ⟨hi, hd, hc⟩ := hs i d rfl
+        simp only [ofTok, List.map_cons, go] at he
+        have := ih (cur + (flat ts).length) (some (i, d ++ flat ts)) sp dp (ptoks ++ ts)
+          (by intro h; cases h)
+          (by intro i' d' h; cases h; exact ⟨hi, by simp [hd, flat], by simp [hc]; omega⟩) e he
+        simpa [srcTok, dstTok, List.append_assoc] using this
     | ins =>
       have tail : ∀ e ∈ go (ofTok tds) cur none,
           Aligned (sp ++ ptoks ++ srcTok tds) (dp ++ (ts ++ dstTok tds)) e := by
